@@ -114,6 +114,26 @@ def replay_state(args):
                     bad.append(("C08.reproduces-target", w, Bramp.tolist(), pred.tolist(), r))
             except Exception as ex:
                 bad.append(("C08.no-error", dict(exc=type(ex).__name__, **w), None, repr(ex)[:200], r))
+    # several DIFFERENT targets in one call, in an order that is neither sorted nor reversed: row k of the result must
+    # be the fit of row k of the targets
+    recsb = [r for r in sorted(st["recs"], key=lambda r: (r["b"], r["v"])) if r["v"] == 6]
+    if len(recsb) >= 4:
+        import random as _random
+        order = list(range(len(recsb)))
+        _random.Random(len(recsb) * 7 + n).shuffle(order)
+        order = order[:6]
+        Bb = np.array([dsys.b_float(s, recsb[k]["b"]) for k in order])
+        w = dict(opt="l2", l2_eps=1e-4, batch_rows=len(order), **where0)
+        try:
+            X, Bp = est.fit_underdetermined(Bb.copy(), underdetermined_opt="l2", l2_eps=1e-4)
+            ncalls += 1
+            for j, k in enumerate(order):
+                r = recsb[k]
+                e = np.asarray(r["l2"]["x"], float) / r["l2"]["den"] / D
+                if np.max(np.abs(np.asarray(X, float)[j] - e)) > TOLX + 1e-3:
+                    bad.append(("C08.objective", dict(row=j, **w), e.tolist(), np.asarray(X, float)[j].tolist(), r))
+        except Exception as ex:
+            bad.append(("C08.no-error", dict(exc=type(ex).__name__, **w), None, repr(ex)[:200], None))
     return bad, ncalls
 
 
